@@ -3,7 +3,21 @@
 A *scenario* fixes everything a request's resolvers do: the root data tree, per-path faults and overrides, which
 fields have a harness resolver, how runtime types are named.  It travels as the request `context`.
 """
+import collections
+import types
+
 from vf import doc
+
+
+class Row:
+    """an object that only supports row["key"] (KeyError when absent)"""
+    __slots__ = ("_d",)
+
+    def __init__(self, d):
+        object.__setattr__(self, "_d", d)
+
+    def __getitem__(self, k):
+        return self._d[k]
 
 
 def lookup(parent, name):
@@ -162,6 +176,12 @@ class TreeBuilder:
             fields["_t_field"] = fields["_t_type"] = fields["_t_engine"] = rt
         if self.style == "attr":
             return Obj(**fields)
+        if self.style == "proxy":
+            return types.MappingProxyType(fields)       # a Mapping that is not a dict
+        if self.style == "userdict":
+            return collections.UserDict(fields)         # a MutableMapping that is not a dict
+        if self.style == "getitem":
+            return Row(fields)                          # subscriptable, no attributes, not a Mapping (like a DB row)
         return fields
 
     def root(self, type_name):
